@@ -1093,7 +1093,32 @@ func runKMount(c *core.Case, variant string, k int) {
 					return
 				}
 				if rh != h {
-					fail("replica-content-differs", fmt.Sprintf("at %s SQLite reads %s through the replica's mount, the primary holds %s", mon.PosOf(R.Node, "db"), rh, h), nil)
+					// diagnosis for the report: is it the replica's files or only what the
+					// kernel serves (page cache, mapped -shm)?
+					diag := map[string]any{"replica_pos": mon.PosOf(R.Node, "db").String(), "primary_pos": mon.PosOf(P.Node, "db").String()}
+					rraw := mon.RawImage(mon.DBDir(R.Node, "db"))
+					diag["replica_raw_files_vs_chain_image"] = chain.img.Diff(rraw)
+					if hh, integ, err := plainHash(c.Dir, rraw, "rdiag"); err == nil {
+						diag["replica_raw_files_read_by_plain_sqlite"] = hh + " integrity=" + integ
+					}
+					if b, err := os.ReadFile(filepath.Join(mon.DBDir(R.Node, "db"), "shm")); err == nil && len(b) >= 136 {
+						diag["replica_shm_header_hex"] = fmt.Sprintf("%x", b[:136])
+					}
+					if st, err := os.Stat(filepath.Join(mon.DBDir(R.Node, "db"), "wal")); err == nil {
+						diag["replica_wal_bytes"] = st.Size()
+					}
+					if r2, err := wproc.open(filepath.Join(R.MountDir(), "db"), true); err == nil {
+						h2, e2 := r2.contentHash()
+						r2.close()
+						diag["second_read_same_caches"] = fmt.Sprintf("%s %v", h2, e2)
+					}
+					_ = os.WriteFile("/proc/sys/vm/drop_caches", []byte("3"), 0o200)
+					if r3, err := wproc.open(filepath.Join(R.MountDir(), "db"), true); err == nil {
+						h3, e3 := r3.contentHash()
+						r3.close()
+						diag["third_read_after_drop_caches"] = fmt.Sprintf("%s %v", h3, e3)
+					}
+					fail("replica-content-differs", fmt.Sprintf("at %s SQLite reads %s through the replica's mount, the primary holds %s", mon.PosOf(R.Node, "db"), rh, h), diag)
 					return
 				}
 				c.Count("kmount_replica_reads_converged", 1)
